@@ -9,6 +9,7 @@ import (
 	"os"
 	"path/filepath"
 	"strings"
+	"time"
 
 	"grol.io/grol/object"
 )
@@ -124,11 +125,12 @@ func instantiateMemo(ops []memoOp, variant int) []string {
 	return in
 }
 
+// inputs carrying c10ShortMark run under a 5 ms deadline (a deadline that expires inside a call, then the same call again)
 func runMemoPair(inputs []string) (a, b []inObs) {
 	vcountN = 0
-	a, _ = runHistory(inputs, RunOpt{})
+	a, _ = runHistory(inputs, RunOpt{ShortFor: c10ShortMark, Short: 5 * time.Millisecond})
 	vcountN = 0
-	b, _ = runHistory(inputs, RunOpt{CacheOff: true})
+	b, _ = runHistory(inputs, RunOpt{CacheOff: true, ShortFor: c10ShortMark, Short: 5 * time.Millisecond})
 	return
 }
 
@@ -356,6 +358,25 @@ func checkC04(c *Ctx) {
 			pinned = append(pinned, []string{strings.ReplaceAll(mk, "V", v), `f = func(q) {println("called", q); len(q)}`, "println(catch(f(m)))", "println(catch(f(m)))", "n = m", "println(catch(f(n)))",
 				"println(catch(f({1: 1})), catch(f([1])), catch(f(m)))"})
 		}
+	}
+	//  (v) scopes that are not the lexical ones: a self call runs with the calling frame as its outer scope; a macro body is
+	//      evaluated in a scope of its own hanging off the macro store
+	for _, def := range []string{"y = 7", "y := 7", "for k = 1 {y = 7}", "func() {y = 7}()"} {
+		for _, body := range []string{"y = 5; return y", "return catch(y).err", "y = 5; return [y, n]"} {
+			pinned = append(pinned, []string{"func t(n) {if n == 0 {" + body + "}; if n == 1 {r = t(0); " + def + "; r2 = t(0); return [r, r2, y]}; return -1}", "println(catch(t(1)))", "println(catch(t(1)), catch(t(0)))"})
+			pinned = append(pinned, []string{"t = func(n) {if n == 0 {" + body + "}; if n == 1 {r = self(0); " + def + "; r2 = self(0); return [r, r2, y]}; return -1}", "println(catch(t(1)))", "println(catch(t(0)), catch(t(1)))"})
+		}
+	}
+	for _, redef := range []string{"g = func() {2}", "g := func() {2}", "del(g); g = func() {2}", "func g() {2}", "K = 1; del(K); K = 2"} {
+		pinned = append(pinned, []string{`m = macro() {g = func() {1}; K = 1; f = func() {[g(), K]}; a = f(); ` + redef + `; b = f(); if a == b {quote("same")} else {quote("changed")}}`, "println(m())", "println(m())"})
+		//  (vi) a definition replaced while a call that used the old one is still running: what that call returns was computed
+		//      with the old definition
+		pinned = append(pinned, []string{"g = func() {1}", "K = 1", "h = func() {0}", "f = func() {a = [g(), K]; " + redef + "; h(); a}", "println(catch(f()))", "println(catch(f()))", "println(catch(f()), g())"})
+		pinned = append(pinned, []string{"g = func() {1}", "K = 1", "h = func(x) {x}", "f = func(x) {a = [g(), K]; " + redef + "; [h(x), a]}", "w = func(x) {f(x)}", "println(catch(w(1)))", "println(catch(w(1)))"})
+	}
+	//  (vii) an evaluation that ran out of time: the deadline error absorbed by catch() is not a result
+	for _, f := range []string{"f = func(n) {catch(slow(n)).err}", "f = func(n) {r = catch(slow(n)); if r.err {-1} else {r.value}}", "f = func(n) {[catch(slow(n)).err, n]}", "g = func(n) {catch(slow(n)).err}; f = func(n) {g(n)}"} {
+		pinned = append(pinned, []string{"slow = func(n) {s = 0; for i = n {s = s + i}; s}", f, "println(f(2000000)) " + c10ShortMark, "println(f(2000000))", "println(f(2000000), f(10))"})
 	}
 	// 5. key confusion matrix: every function shape called with every ordered pair of argument lists that a sloppy cache key
 	//    could identify (int / float / string of the same digits, 0.0 / -0.0 / 0, an array / its spread / its nesting,
